@@ -261,7 +261,10 @@ type runResult struct {
 	numGoroutine int
 }
 
-func settleLimit() time.Duration { return 3 * time.Second }
+// settleLimit is how long the harness waits for a quiet moment.  Nothing in the system under
+// test spins or sleeps, so on an idle machine a quiet moment arrives within microseconds; the
+// limit only matters when the machine is so loaded that a runnable goroutine is not scheduled.
+func settleLimit() time.Duration { return 30 * time.Second }
 
 func runCase(in input) runResult {
 	base := map[string]bool{}
@@ -593,8 +596,19 @@ func main() {
 	cfg := hx.ParseFlags()
 	out := hx.NewOut(cfg, "Obs.C16")
 	maxLeft, maxNum := 0, 0
+	discarded := 0
 	add := func(in input, origin string) {
 		r := runCase(in)
+		for _, s := range r.snaps {
+			if !s.Quiet {
+				// no quiet moment within the limit: the snapshot was taken while a goroutine was
+				// still runnable, so it describes no state of the protocol; the run is not an
+				// observation (counted, and the harness fails below if it happens more than rarely)
+				discarded++
+				out.Count("discarded-not-quiet")
+				return
+			}
+		}
 		if r.leftover > maxLeft {
 			maxLeft = r.leftover
 		}
@@ -630,6 +644,11 @@ func main() {
 		}
 	}
 	finish := func() {
+		out.Extra["discarded_not_quiet"] = discarded
+		if discarded > 5 && discarded*100 > out.Len() {
+			fmt.Fprintf(os.Stderr, "c16: %d of %d runs never reached a quiet moment within %v\n", discarded, out.Len()+discarded, settleLimit())
+			os.Exit(3)
+		}
 		out.Extra["max_goroutines_left_after_cleanup"] = maxLeft
 		out.Extra["max_runtime_NumGoroutine_after_case"] = maxNum
 		if err := out.Flush(); err != nil {
